@@ -170,7 +170,7 @@ static void destroy(void *p)
     hx_tab = o->tab;
     if (!o->dead) {
         hx_armed = 1;
-        if (!sigsetjmp(hx_jb, 1)) {
+        if (!sigsetjmp(hx_jb, 0)) {
             for (int j = 0; j < MAXA; j++) if (o->live[j]) PARSEC_OBJ_DESTRUCT(&o->oa[j]);
             PARSEC_OBJ_DESTRUCT(&o->nfo);
         }
@@ -301,7 +301,7 @@ static int apply(void *p, int op, char *err)
     obj_t *o = p; int r;
     hx_tab = o->tab; hx_err[0] = 0;
     hx_armed = 1;
-    if (sigsetjmp(hx_jb, 1)) { hx_armed = 0; o->dead = 1; snprintf(err, SX_ERRLEN, "%s", hx_crash); return 1; }
+    if (sigsetjmp(hx_jb, 0)) { hx_armed = 0; o->dead = 1; snprintf(err, SX_ERRLEN, "%s", hx_crash); return 1; }
     r = apply_inner(o, op, err);
     hx_armed = 0;
     return r;
